@@ -50,13 +50,15 @@ def canon_index(rec, gid):
     raise KeyError(gid)
 
 
-ASSIGN_POSITIONS = ("asgtarget", "opasgtarget", "fldtarget")
+ASSIGN_POSITIONS = ("asgtarget", "opasgtarget", "fldtarget", "fldoptarget", "deepfldtarget", "fldtargetinloop", "idxtarget")
 
 
 def assign_pairs(rec):
     """[(ids of the globals whose initialisation or body leads to an assignment of global t, t)] - from the case."""
     pairs = []
-    if rec["fam"] == "pos":
+    if rec["fam"] in ("type", "self"):
+        return pairs
+    if rec["fam"] in ("pos", "unspec"):
         if rec["id"]["pos"] in ASSIGN_POSITIONS:
             users = {2, 3} & {t["b"] for t in rec["tops"] if t["k"] == "def"}    # f and/or u; late is global 1
             pairs.append((users, 1))
@@ -92,8 +94,12 @@ def hazard(rec, variant):
 
 
 def describe(rec):
-    if rec["fam"] == "pos":
+    if rec["fam"] in ("pos", "unspec"):
         return "pos=%s,user=%s" % (rec["id"]["pos"], rec["id"]["user"])
+    if rec["fam"] == "self":
+        return "self-reference,pos=%s,user=%s" % (rec["id"]["pos"], rec["id"]["user"])
+    if rec["fam"] == "type":
+        return "type=%s,use=%s" % (rec["id"]["shape"], rec["id"]["use"])
     return "kinds=" + "+".join(sorted(set(c["kind"] for c in rec["id"])))
 
 
@@ -111,7 +117,7 @@ def signature(rec, rej):
 
 
 def program_text(rec):
-    if rec["fam"] == "pos":
+    if rec["fam"] != "shape":
         return describe(rec)
     return " ".join("%s%s" % (c["kind"], c["j"] or "") for c in rec["id"])
 
@@ -154,10 +160,10 @@ def run(ctx):
     verdicts = vlib.Verdicts(PID)
     vlib.build_harness(["c11"])
     if tier == "quick":
-        uni = {"MINN": 1, "MAXN": 4, "MOD": 12, "SEED": ctx.seed, "POS": 1}
+        uni = {"MINN": 1, "MAXN": 4, "MOD": 12, "SEED": ctx.seed, "POS": 1, "TYPES": 1}
         params = {"MAXPERM": 120, "TWOG": 2, "TWOP": 6}
     else:
-        uni = {"MINN": 1, "MAXN": 4, "MOD": 1, "SEED": ctx.seed, "POS": 1}
+        uni = {"MINN": 1, "MAXN": 4, "MOD": 1, "SEED": ctx.seed, "POS": 1, "TYPES": 1}
         params = {"MAXPERM": 120, "TWOG": 4, "TWOP": 12}
 
     if ctx.replay:
@@ -189,6 +195,12 @@ def run(ctx):
     npos = sum(1 for c in cases if c["fam"] == "pos")
     if npos < 165:
         vlib.tool_error("vacuity: only %d position cases" % npos)
+    nself = sum(1 for c in cases if c["fam"] == "self")
+    if nself < 40:
+        vlib.tool_error("vacuity: only %d self-reference cases" % nself)
+    ntype = sum(1 for c in cases if c["fam"] == "type")
+    if ntype < 45 or by_class.get("illtyped", 0) < 25 or by_class.get("unspecified", 0) < 3:
+        vlib.tool_error("vacuity: %d type-order cases, classes %s" % (ntype, by_class))
     min_cases = 1300 if tier == "quick" else 11100
     if len(cases) < min_cases or r.depth < 6:
         vlib.tool_error("vacuity: %d programs, depth %d" % (len(cases), r.depth))
@@ -198,7 +210,7 @@ def run(ctx):
     ev.set(states=r.distinct, transitions=r.generated, tlc_wall_s=round(r.wall_s, 1), programs=len(cases),
            classes=by_class, non_confluent=by_class.get("nonconfluent", 0),
            spec_invariants=["NoUninitialisedAccess", "SpecNeverStuck", "InitialisedOnlyOnce", "InOutcomes", "Confluence",
-                            "CyclicNeverCompletes", "BlockedOnlyIfCyclic", "CompleteEndsDone", "PositionCasesConfluent"])
+                            "CyclicNeverCompletes", "BlockedOnlyIfCyclic", "CompleteEndsDone", "PositionCasesConfluent", "SelfCasesCyclic", "TypeLabels"])
 
     # 2. conformance: all permutations / splits through the real compiler and minilua; TLC judges
     tf, recs = record(wd, "main", cases, params)
@@ -222,6 +234,8 @@ def run(ctx):
     kinds_ok = {k: 0 for k in ALL_KINDS}       # kind seen in a confluent program accepted in every rendering
     kinds_clean = {k: 0 for k in ALL_KINDS}    # ... and behaving as specified in every rendering
     pos_ok, pos_clean = {}, {}                 # the same for the syntactic positions
+    type_good_clean = set()                    # type shapes whose well-typed use is accepted and behaves in every rendering
+    ill_rejected = 0                           # planted ill-typed programs rejected in every rendering
     conservative = 0
     cyc_rejected = 0
     all_syntax = 0
@@ -239,7 +253,12 @@ def run(ctx):
             split_changes_acceptance += 1
         if j["class"] == "cyclic" and j["accepted"] == 0:
             cyc_rejected += 1
-        if j["class"] == "confluent":
+        if j["class"] == "illtyped" and j["accepted"] == 0:
+            ill_rejected += 1
+        if j["class"] == "confluent" and rec["fam"] == "type":
+            if j["accepted"] == j["variants"] and (i + 1) not in rejected_recs:
+                type_good_clean.add(rec["id"]["shape"])
+        elif j["class"] == "confluent":
             if j["accepted"] == 0:
                 conservative += 1
             elif j["accepted"] == j["variants"] and rec["fam"] == "pos":
@@ -263,8 +282,14 @@ def run(ctx):
     missing = [q for q in all_pos if pos_ok.get(q, 0) == 0]
     if missing:
         vlib.tool_error("vacuity: positions never accepted by the compiler (printer / typing of the case?): %s" % missing)
-    if len(all_pos) < 47:
+    if len(all_pos) < 50:
         vlib.tool_error("vacuity: only %d positions" % len(all_pos))
+    all_tshapes = sorted({c["id"]["shape"] for c in cases if c["fam"] == "type"})
+    missing = [q for q in all_tshapes if q not in type_good_clean]
+    if missing:
+        vlib.tool_error("vacuity: well-typed use of type shapes not accepted / not behaving in every order: %s" % missing)
+    if len(all_tshapes) < 17 or ill_rejected < 20:
+        vlib.tool_error("vacuity: %d type shapes, %d planted ill-typed programs rejected in every order" % (len(all_tshapes), ill_rejected))
     if conservative > 0.2 * by_class["confluent"]:
         vlib.tool_error("vacuity: %d of %d confluent programs are rejected by the compiler" % (conservative, by_class["confluent"]))
     if cyc_rejected < 50:
@@ -293,9 +318,10 @@ def run(ctx):
            exhaustive=(tier == "thorough"), rejected_by_compiler=conservative, cyclic_rejected_in_every_order=cyc_rejected,
            split_changes_acceptance=split_changes_acceptance, kinds_in_accepted_programs=kinds_ok,
            kinds_behaving_as_specified=kinds_clean, position_cases=npos, positions=len(all_pos),
-           positions_behaving_as_specified=len(pos_clean), negative_controls_rejected=neg_total,
+           positions_behaving_as_specified=len(pos_clean), type_order_cases=ntype, self_reference_cases=nself, type_shapes=len(all_tshapes),
+           illtyped_rejected_in_every_order=ill_rejected, negative_controls_rejected=neg_total,
            reject_records=len(rejects), known_findings_hit=verdicts.known_hits, validate_wall_s=round(v.wall_s, 1),
-           rule="position family: 47 syntactic positions x users (start / init / iife / expr), all; shape family: programs of SyltInit's universe (sizes 1-3 complete; size 4 complete in thorough, a seeded 1/12 sample plus "
+           rule="type-order family: 17 shapes of mutually mentioning type declarations / signature-only uses x (good + planted ill-typed uses), all; position family: 47 syntactic positions x users (start / init / iife / expr), all; shape family: programs of SyltInit's universe (sizes 1-3 complete; size 4 complete in thorough, a seeded 1/12 sample plus "
                 "landmarks in quick); per program every permutation of its NS top-level statements when NS! <= 120, else 120 "
                 "seeded distinct ones incl. canonical and reversed; plus two-file groups (mask, import style) x permutations; "
                 "non-trivial = at least 6 renderings",
